@@ -132,6 +132,10 @@ fn txn_alphabet() -> Vec<&'static str> {
         "2024/01/16 i\n  A  1 X\n  B  2 Y\n  C  3 Z\n\n",
         // cost with a multi-commodity expression (must be rejected the same way every time)
         "2024/01/17 j\n  A  5 W @ (1 X + 2 Y)\n  B\n\n",
+        // three holdings whose values in Z have 29 significant digits: decimal addition rounds when the running sum
+        // exceeds 96 bits, so (a + b) - b and a + (b - b) differ in the last digit - a conversion that sums in map
+        // order prints different figures per run
+        "2024/01/18 k\n  H  1 P @ 5.1111111111111111111111111111 Z\n  H  1 Q @ 4.0000000000000000000000000004 Z\n  H  -1 R @ 4.0000000000000000000000000004 Z\n  B\n\n",
     ]
 }
 
@@ -151,7 +155,7 @@ fn commands(path: &str) -> Vec<Vec<String>> {
     ]
 }
 
-const PRELUDE: &str = "2024/01/01 declare\n  Z0  0 X\n  Z0  0 Y\n  Z0  0 Z\n  Z0  0 W\n\n";
+const PRELUDE: &str = "2024/01/01 declare\n  Z0  0 X\n  Z0  0 Y\n  Z0  0 Z\n  Z0  0 W\n  Z0  0 P\n  Z0  0 Q\n  Z0  0 R\n\n";
 
 fn judge(text: &str, cmd_index: usize, path: &Path, bound: usize, ctx_tick: &dyn Fn(), execs: &mut u64) -> Outcome {
     std::fs::write(path, text).expect("write scratch ledger");
@@ -245,6 +249,79 @@ fn run(ctx: &mut Ctx) {
                 ctx.count("transitions", execs);
                 ctx.count("validated", execs);
             }
+        }
+    }
+    // ---- import: rewrite rules whose AND element has several fields (the fields live in a hash map) ----
+    // every pair / triple of fields from a 5-field alphabet as one AND element, on 3 records, through `okane import`;
+    // the order in which the element's fields are applied is a choice point (hook in cli/src/import/extract.rs)
+    {
+        // Camt053: every regex field may capture payee / code, and the `payee` field matches the payee captured so far
+        let fields: [(&str, &str); 6] = [
+            ("creditor_name", "'(?P<payee>.+)'"),
+            ("debtor_name", "'(?P<payee>.+)'"),
+            ("remittance_unstructured_info", "'(?P<payee>[A-Z ]{5,})'"),
+            ("additional_transaction_info", "'(?P<code>\\d{5,})'"),
+            ("additional_entry_info", "'Payment (?P<payee>order)'"),
+            ("payee", "'(?i)okane'"),
+        ];
+        let mut elements: Vec<Vec<usize>> = vec![];
+        for a in 0..fields.len() {
+            for b in a + 1..fields.len() {
+                if fields[a].0 != fields[b].0 {
+                    elements.push(vec![a, b]);
+                }
+                for c in b + 1..fields.len() {
+                    let ks = [fields[a].0, fields[b].0, fields[c].0];
+                    if ks[0] != ks[1] && ks[1] != ks[2] && ks[0] != ks[2] {
+                        elements.push(vec![a, b, c]);
+                    }
+                }
+            }
+        }
+        ctx.fact("import_and_elements", elements.len() as u64);
+        let stmt = std::fs::read_to_string("/repo/cli/tests/testdata/import/iso_camt.xml").expect("the repository's camt053 sample");
+        let idir = dir.join(format!("import-{}", ctx.shard));
+        for el in &elements {
+            if !ctx.next_is_mine() {
+                ctx.skip_cases(1);
+                continue;
+            }
+            let mut matcher = String::new();
+            for (i, f) in el.iter().enumerate() {
+                matcher.push_str(&format!("{}{}: {}\n", if i == 0 { "    - " } else { "      " }, fields[*f].0, fields[*f].1));
+            }
+            let cfg = format!("path: \"iso_camt\"\nencoding: UTF-8\naccount: \"Assets:Okane Bank\"\naccount_type: asset\noperator: Okane Bank\ncommodity: CHF\nrewrite:\n  - account: Expenses:Matched\n    matcher:\n{}", matcher);
+            let mut execs = 0u64;
+            let tick_ctx: *const Ctx = ctx;
+            let tick = move || unsafe { (*tick_ctx).tick() };
+            ctx.case(
+                || format!("$ okane import --config c.yml iso_camt.xml   (the repository's sample statement cli/tests/testdata/import/iso_camt.xml)\n== c.yml ==\n{}", cfg),
+                || {
+                    std::fs::create_dir_all(&idir).expect("mkdir");
+                    let cp = idir.join("c.yml");
+                    let sp = idir.join("iso_camt.xml");
+                    std::fs::write(&cp, &cfg).expect("write config");
+                    std::fs::write(&sp, &stmt).expect("write statement");
+                    let args: Vec<String> = ["okane", "import", "--config", &cp.to_string_lossy(), &sp.to_string_lossy()].iter().map(|x| x.to_string()).collect();
+                    let dstr = idir.to_string_lossy().to_string();
+                    let f = || run_cli(&args).replace(&dstr, "<dir>");
+                    let ex = explore(bound.max(1), &f, &tick);
+                    execs = ex.executions;
+                    if ex.outcomes.len() > 1 {
+                        let (choices, other) = ex.witness.clone().unwrap();
+                        let (base_run, _) = exec(&[], &f);
+                        return Outcome::violation(
+                            "stdout-differs/import/and-element-field-order",
+                            format!("{} distinct observations over {} executions; field-order choice vector {:?}\n--- default order ---\n{}\n--- other order ---\n{}", ex.outcomes.len(), ex.executions, choices, base_run, other),
+                        );
+                    }
+                    let o = ex.outcomes.iter().next().cloned().unwrap_or_default();
+                    Outcome::pass(format!("deterministic/import/{}/points{}", if o.starts_with("EXIT 0") { "ok" } else { "fails" }, ex.max_points.min(9)))
+                },
+            );
+            ctx.count("states", execs);
+            ctx.count("transitions", execs);
+            ctx.count("validated", execs);
         }
     }
     // ---- free-running sample (not the basis of the verdict of the pass above; a difference IS a violation) ----
